@@ -38,7 +38,7 @@ ASSUMPTIONS = [
     "with octet stuffing a lone trailing escape octet before a flag is dropped by un-stuffing",
 ]
 MUST_FIRE = {
-    "quick": ["valid_frames", "invalid_bad_fcs_good_len", "invalid_good_fcs_bad_len", "len_rewrite_good_fcs", "hdr_only", "noise_overlong"],
+    "quick": ["valid_frames", "invalid_bad_fcs_good_len", "invalid_good_fcs_bad_len", "len_rewrite_good_fcs", "hcs_rewrite_good_fcs", "hdr_only", "noise_overlong"],
     "thorough": ["valid_frames", "invalid_bad_fcs_good_len", "invalid_good_fcs_bad_len", "len_rewrite_good_fcs", "hdr_only", "noise_overlong", "noise_abort_seq"],
 }
 
